@@ -1180,7 +1180,8 @@ class CircuitDAG(CircuitBase):
             op = copy.deepcopy(op)
             is_controlled = False
             if isinstance(op, ops.OneQubitGateWrapper):
-                op_type_seq = [type(gate) for gate in op.unwrap()]
+                # same order as op.operations: unwrap() pairs noise[i] with operations[i]
+                op_type_seq = op.operations
                 noise_list = self._find_wrapped_noise(
                     op_type_seq, noise_model_map[op.reg_type]
                 )
